@@ -446,4 +446,49 @@ example : [OpX.list .str, .set .bad, .ins 4, .old .len, .old (.has 3)].all OpX.i
 example : (stepX ⟨[1, 3], true⟩ (.app (.int 2) false false)).1 = ⟨[1, 3, 2], true⟩ ∧
     (stepX ⟨[1, 3], true⟩ (.ins 2)) = (⟨[1, 3], true⟩, .err .notImplemented) := by decide
 
+/-! ## `reverse` touches `as_list` only; `str()`, `repr()`, `obj[k]`, `==`, `obj.data` -/
+
+/-- **`reverse` is visible in `as_list` only**: whatever the flag, every other call gives the same
+answer and leaves the same data (iteration, `obj.data`, `len`, `as_set`, the compressed string,
+membership, `append`, `remove`, `insert` do not depend on it), and so do the five further
+readers. -/
+theorem reverse_only_in_as_list (d : List Nat) (r1 r2 : Bool) (op : OpX)
+    (h1 : ∀ t, op ≠ .list t) (h2 : op ≠ .old .list) :
+    (stepX ⟨d, r1⟩ op).2 = (stepX ⟨d, r2⟩ op).2 ∧
+    (stepX ⟨d, r1⟩ op).1.data = (stepX ⟨d, r2⟩ op).1.data := by
+  cases op with
+  | old o =>
+    cases o <;> first
+      | exact absurd rfl h2
+      | exact ⟨rfl, rfl⟩
+      | (simp only [stepX]; constructor <;> (split <;> rfl))
+  | list t => exact absurd rfl (h1 t)
+  | set t => exact ⟨rfl, rfl⟩
+  | app v a b => simp only [stepX]; constructor <;> (split <;> rfl)
+  | rem v a => simp only [stepX]; constructor <;> (split <;> rfl)
+  | ins k => exact ⟨rfl, rfl⟩
+
+theorem reverse_not_in_readers (rt : CTy) (fresh d : List Nat) (r1 r2 : Bool) (r : ReadOp) :
+    readX rt fresh ⟨d, r1⟩ r = readX rt fresh ⟨d, r2⟩ r := by
+  cases r <;> rfl
+
+/-- The further readers: `obj.data` is what iteration gives, `obj[k]` is the `k`-th member in
+that order and raises `IndexError` from `len` on, `==` against a freshly parsed range holds
+exactly while the data are the parsed ones. -/
+theorem further_readers (rt : CTy) (fresh : List Nat) (s : St) (k : Nat) :
+    readX rt fresh s .data = .old (stepOp s.data .iter).2 ∧
+    (∀ h : k < s.data.length, readX rt fresh s (.idx k) = .old (.nat s.data[k])) ∧
+    (s.data.length ≤ k → readX rt fresh s (.idx k) = .err .indexError) ∧
+    (readX rt fresh s .eqFresh = .old (.bool true) ↔ s.data = fresh) := by
+  refine ⟨rfl, ?_, ?_, ?_⟩
+  · intro h; simp [readX, List.getElem?_eq_getElem h]
+  · intro h; simp [readX, List.getElem?_eq_none h]
+  · simp [readX]
+
+example : readX .int [1, 2, 3] ⟨[1, 2, 3], true⟩ .str = .old (.str "[1, 2, 3]".toList) ∧
+    readX .int [1, 2, 3] ⟨[1, 2, 3], true⟩ .repr = .old (.str "<CiscoRange [1, 2, 3] members: <class 'int'>>".toList) ∧
+    readX .float [] ⟨[], false⟩ .repr = .old (.str "<CiscoRange [] result_type: <class 'float'>>".toList) ∧
+    readX .int [1, 2, 3] ⟨[1, 3], true⟩ .eqFresh = .old (.bool false) ∧
+    readX .int [1, 2, 3] ⟨[1, 3], true⟩ (.idx 2) = .err .indexError := by decide +kernel
+
 end Ccp.C14
